@@ -8,6 +8,7 @@ import (
 
 	"verifharness/internal/core"
 	"verifharness/internal/engine"
+	"verifharness/internal/facts"
 	"verifharness/internal/sgen"
 )
 
@@ -21,6 +22,17 @@ type Check struct {
 var Registry = map[string]*Check{}
 
 func register(id string, run func(c *engine.Ctx)) { Registry[id] = &Check{ID: id, Run: run} }
+
+// factsOf regenerates the facts from /repo and ties the listed groups (see internal/facts).
+func factsOf(c *engine.Ctx, groups ...string) {
+	c.Facts(func() (string, error) {
+		f, err := facts.Extract("/repo")
+		if err != nil {
+			return "", err
+		}
+		return f.Lean("GJS.Facts", "/- REGENERATED from /repo on every run by `verif` (internal/facts). Do not edit. -/\n"), nil
+	}, groups...)
+}
 
 // replayOf describes one program case (and optionally one document) so that `verif replay` can re-run it.
 func replayOf(r *core.PResult, doc int, extra M) M {
